@@ -153,9 +153,9 @@ Lemma node_canon w ff n va c (rec : id -> option etree) :
   CommentsOk (n_comment n) /\ (exists nm, ElemNameOk tab_el (n_name n) nm) /\
   AttrsOk T tab_at tab_en check_fn float_fmt float_parse va (n_type n) (map (fun a => (fst a, to_pc (snd a))) (n_attrs n)) /\
   exists mode named, content_mode T (n_type n) = Val mode /\ ShapeOk mode c /\ CHILDREN (n_type n) mode [] [] c /\
-    is_named_in_version T (n_type n) ver = Val named /\ (named = true -> existsb (is_short T) c = true).
+    is_named_in_version T (n_type n) ver = Val named /\ (named = true -> head_short T c = true).
 Proof.
-  intros Hrec (_ & _ & (items & HI & HO) & Hty & Hsn) (HCm & HNm & HAt & (mode & kitems & named & HMo & HK & HSh & HNa) & HTx) EPI.
+  intros Hrec (_ & _ & (items & HI & HO) & Hty & Hsn) (HCm & HNm & HAt & (mode & kitems & named & HMo & HK & HSh & HNa & HFirst) & HTx) EPI.
   split; [exact HCm|]. split; [exact HNm|]. split; [exact HAt|]. exists mode, named. split; [exact HMo|].
   destruct (kept_items_sub w ff _ _ HI) as (kitems' & HK' & SK). rewrite HK in HK'. injection HK' as <-.
   pose proof (ordered_subseq T (n_type n) ver items kitems SK HO) as HOK.
@@ -163,11 +163,8 @@ Proof.
   destruct (proj_items_canon rec w ff (n_type n) mode (n_content n) kitems [] [] c Hrec HTx Hty HK HLA (shape_chars_len _ _ HSh) EPI)
     as (HCh & HKi).
   split; [exact (shape_of_kept _ _ _ HKi HSh)|]. split; [exact HCh|]. split; [exact HNa|].
-  intros ->. destruct (Hsn HNa) as (cs & cn & Hin & Hcn & Hp & Hnm).
-  destruct (proj_items_in _ _ _ _ _ _ _ EPI Hin Hcn Hp) as (ts & Hr & Hino).
-  apply existsb_exists. exists (inl ts). split; [exact Hino|]. cbn [is_short].
-  destruct (Hrec _ _ Hin Hr) as (_ & cn' & Hcn' & Hname & _). rewrite Hcn in Hcn'. injection Hcn' as <-.
-  rewrite Hname, Hnm. apply N.eqb_refl.
+  intros ->. destruct (HFirst eq_refl) as (r & ->). destruct c as [|[t0|v0] c']; try discriminate HKi.
+  cbn [map kind_of] in HKi. injection HKi as HN _. cbn [head_short is_short]. rewrite HN. apply N.eqb_refl.
 Qed.
 
 (* ---- every element below the root ---- *)
